@@ -18,6 +18,8 @@ import (
 	"verifsim/simrt"
 )
 
+var resetClock func()
+
 // Spec describes one property harness.
 type Spec struct {
 	ID string
@@ -116,7 +118,14 @@ func (sp *Spec) config(t *simrt.Tape, tier string) simrt.Config {
 func (sp *Spec) RunOnce(t *testing.T, tape *simrt.Tape, tier string, trace bool) (*simrt.Result, *simrt.Failure) {
 	cfg := sp.config(tape, tier)
 	cfg.Trace = trace
-	res := simrt.Execute(t, cfg, tape, func(r *simrt.Run) { sp.Body(r, tier) })
+	res := simrt.Execute(t, cfg, tape, func(r *simrt.Run) {
+		if resetClock == nil {
+			r.EngineError("harness built without -tags verif: timex seam missing")
+			return
+		}
+		resetClock() // seam: re-base go-zero's relative clock on the bubble clock
+		sp.Body(r, tier)
+	})
 	f := res.Failure
 	if f == nil && res.EngineErr == "" {
 		if sp.Post != nil {
